@@ -6,5 +6,5 @@ REPO=${1:-/repo}
 cd "$REPO/yash-cli" || exit 2
 OUT=$(LANG=C CARGO_NET_OFFLINE=true cargo test --offline --test scripted_test 2>&1 | grep "^test .* FAILED\|test result")
 echo "$OUT"
-BAD=$(echo "$OUT" | grep "^test " | grep -v "job_control_ex" | wc -l)
+BAD=$(echo "$OUT" | grep "^test .* FAILED$" | grep -v "job_control_ex" | wc -l)
 [ "$BAD" -eq 0 ]
